@@ -365,7 +365,6 @@ impl Format {
                     if &s[idx..idx + 1] == "-" {
                         offset_sign = -1;
                     }
-                    prev_idx += 1;
                 }
             }
         }
